@@ -8,7 +8,7 @@ FLAVOR="${1:-plain}"
 BROOT="${VERIF_BUILD:-$VERIF/.build}"
 BDIR="$BROOT/gatery-$FLAVOR"
 FLAGS="-O1 -g0 -w -DGATERY_VERIF"
-if [ "$FLAVOR" = asan ]; then FLAGS="-O1 -g1 -w -DGATERY_VERIF -fsanitize=address,undefined -fno-sanitize-recover=all -fno-omit-frame-pointer"; fi
+if [ "$FLAVOR" = asan ]; then FLAGS="-O1 -g1 -w -DGATERY_VERIF -fsanitize=address,undefined -fno-sanitize=vptr -fno-sanitize-recover=all -fno-omit-frame-pointer"; fi
 mkdir -p "$BROOT"
 exec 9>"$BROOT/.lock-$FLAVOR"
 flock 9
